@@ -15,7 +15,12 @@ for f in sorted(glob.glob(str(V / 'seeded/*/meta.json'))):
         keys = ', '.join(f'`{k}`' for k in r.get('violation_keys', [])[:2])
         det.append(f"{chk} {r['tier']}: {'**caught**' if r['detected'] else 'MISSED'} {keys}")
     hist = m.get('history', '')
-    note = ' (first version of the check missed it: ' + hist.split('strengthened: ')[-1] + ')' if hist else ''
+    if hist.startswith('evaluated after'):
+        note = ' (check strengthened after reading the patch, before it was run: ' + hist.split('strengthened: ')[-1] + ')'
+    elif hist:
+        note = ' (first version of the check missed it: ' + hist.split('strengthened: ')[-1] + ')'
+    else:
+        note = ''
     rows.append(f"| {sid} | {', '.join(m['files_changed'])} | {m['needs_to_manifest']} | {'; '.join(det)}{note} |")
 table = ('| seed | files | needs to manifest | result |\n|---|---|---|---|\n' + '\n'.join(rows) + '\n')
 p = V / 'DESIGN.md'
